@@ -17,7 +17,13 @@ use crate::core::*;
 use crate::execs::*;
 
 /// (text, detached)
-pub const SNIPPETS: [(&str, bool); 60] = [
+pub const SNIPPETS: [(&str, bool); 64] = [
+    // what the runner writes behind the restored state (it exports the configured environment): keyword mode, a function named export
+    ("set -k", false),
+    ("export() { echo my export; }", false),
+    // text inside a function / an alias that looks like a line of the state file
+    ("hd() { cat <<EOF\ndeclare -f hd\nset -o posix\nEOF\n}", false),
+    ("alias ml='echo a\nset -o b'", false),
     // variables of the user (or documented as carried over) whose names begin like the ones bash owns
     ("BASH_TOOLS_DIR='/opt/my tools'; export BASH_ENV=/nonexistent/prelude.sh", false),
     // functions and aliases named like the builtins the restored state is written in
@@ -100,6 +106,8 @@ declare -f f || true
 declare -f xg || true
 xg a 2>/dev/null || true
 alias g 2>/dev/null || true
+alias ml 2>/dev/null || true
+hd 2>/dev/null || true
 set +o | while read -r a b c; do case "$c" in noclobber|nounset|noglob|errexit|pipefail|errtrace) builtin echo "$a $b $c";; esac; done
 shopt -p extglob nullglob || true
 echo "PWD=$PWD"
